@@ -447,7 +447,11 @@ func c15GenLedger(r *Rand, i int, tier string) []string {
 		s.someDeposit()
 	}
 	for k := 0; k < steps; k++ {
-		switch r.Intn(32) {
+		switch r.Intn(36) {
+		case 32, 33:
+			s.failingOutput()
+		case 34, 35:
+			s.concurrent()
 		case 20, 21:
 			s.odd()
 		case 22, 23, 24:
@@ -458,6 +462,8 @@ func c15GenLedger(r *Rand, i int, tier string) []string {
 			s.retry()
 		case 29, 30:
 			s.pendingRefs()
+		case 31:
+			s.failingOutput()
 		case 0, 1, 2:
 			s.someDeposit()
 		case 3, 4:
@@ -941,6 +947,113 @@ func (s *c15Sim) pendingRefs() {
 			}
 			s.applyFinal([]int{c.id}, nc, topoc)
 		}
+	}
+}
+
+// an unvalidated deposit with several script outputs (finalization does not care about the count); when
+// `like` is given, output number `pos` reuses the ghost key of the same output of `like`
+func (s *c15Sim) multiDeposit(asset, nOut int, like *c15SimTx, pos int) *c15SimTx {
+	t := s.newTx("deposit", asset)
+	t.info = c15Info(asset)
+	acct := 1 + s.r.Intn(4)
+	total := new(big.Int)
+	var outl []string
+	for i := 0; i < nOut; i++ {
+		amt := c15Units(int64(s.r.Range(1, 9)))
+		total.Add(total, amt)
+		o := &c15SimOut{tx: t.id, idx: i, asset: asset, amount: amt, key: s.key(acct, i)}
+		if like != nil && i == pos {
+			o.key = like.outs[i].key
+		}
+		t.outs = append(t.outs, o)
+		outl = append(outl, s.outLine(o, "s"))
+	}
+	s.nextSeed++
+	t.amount = total
+	s.emit("tx %d %d 1 1 %d d:%d:%d:%d:%s %s -", t.id, asset, s.nonce(), s.nextDep, t.info[0], t.info[1], total, strings.Join(outl, ","))
+	s.nextDep++
+	s.emit("lock %d 0", t.id)
+	s.emit("put %d", t.id)
+	t.put = true
+	return t
+}
+
+// a multi-output member whose output number `pos` (first, middle, last) cannot be written because its
+// ghost key belongs to another finalized transaction, at a random position of a batch
+func (s *c15Sim) failingOutput() {
+	r := s.r
+	asset := Pick(r, []int{4, 5})
+	if s.info[asset] != nil && *s.info[asset] != c15Info(asset) {
+		return
+	}
+	nOut := r.Range(2, 5)
+	a := s.multiDeposit(asset, nOut, nil, 0)
+	s.snapshot([]int{a.id}, 1+r.Intn(c15Nodes), s.fits([]int{a.id}), 0)
+	if !a.final {
+		return
+	}
+	pos := Pick(r, []int{0, nOut / 2, nOut - 1, r.Intn(nOut)})
+	b := s.multiDeposit(asset, nOut, a, pos)
+	b.good = false
+	good := s.pendingGood()
+	if len(good) > 2 {
+		good = good[:2]
+	}
+	if !s.fits(good) {
+		good = nil
+	}
+	members := append([]int(nil), good...)
+	at := r.Intn(len(members) + 1)
+	members = append(members[:at], append([]int{b.id}, members[at:]...)...)
+	s.snapshot(members, 1+r.Intn(c15Nodes), false, 0)
+}
+
+// 2..4 snapshots of different nodes that share pending transactions, handed to WriteSnapshot at the same
+// time while another writer holds the store mutex; each also carries a deposit of its own in the same asset
+func (s *c15Sim) concurrent() {
+	r := s.r
+	asset := Pick(r, []int{4, 5})
+	if s.info[asset] != nil && *s.info[asset] != c15Info(asset) {
+		return
+	}
+	n := r.Range(2, 4)
+	var shared []int
+	for k := r.Range(1, 2); k > 0; k-- {
+		shared = append(shared, s.deposit(asset, c15Units(int64(r.Range(1, 30))), c15DepOpt{validate: true}).id)
+	}
+	if f := s.finalIDs(); len(f) > 0 && r.Bool() {
+		shared = append(shared, Pick(r, f)) // and one that is finalized already
+	}
+	nodes := []int{1, 2, 3, 4, 5, 6, 7}
+	for a := len(nodes) - 1; a > 0; a-- {
+		b := r.Intn(a + 1)
+		nodes[a], nodes[b] = nodes[b], nodes[a]
+	}
+	line := fmt.Sprintf("csnap %d", n)
+	type one struct {
+		members    []int
+		node, topo int
+	}
+	var all []one
+	for i := 0; i < n; i++ {
+		own := s.deposit(asset, c15Units(int64(r.Range(1, 30))), c15DepOpt{validate: true})
+		members := append(append([]int(nil), shared...), own.id)
+		ok := true
+		for _, id := range members {
+			ok = ok && !s.uniq[[2]int{id, nodes[i]}]
+		}
+		if !ok {
+			return
+		}
+		args, topo := s.kargs(members, nodes[i])
+		line += " " + args
+		all = append(all, one{members, nodes[i], topo})
+	}
+	s.emit("%s", line)
+	s.emit("dump")
+	s.emit("supply")
+	for _, o := range all {
+		s.applyFinal(o.members, o.node, o.topo)
 	}
 }
 
